@@ -218,3 +218,18 @@ def return_sites(fn):
                     continue
             out.append((o, bb))
     return out
+
+
+def exit_line(fn, path):
+    """source line that characterises the exit a path takes: the last call on it (handler / helper), else the last conditional branch"""
+    if not path:
+        return None
+    for bb in reversed(path):
+        for i in reversed(fn.blocks[bb]["insts"]):
+            if i["op"] in ("call", "invoke") and not (i.get("callee") or "").startswith("llvm.") and i.get("line"):
+                return i["line"]
+    for bb in reversed(path):
+        t = fn.term(bb)
+        if t["op"] in ("br", "switch") and "cond" in t and t.get("line"):
+            return t["line"]
+    return fn.term(path[-1]).get("line")
